@@ -115,7 +115,7 @@ def crate_flags(crate, playback=False):
     return flags
 
 
-CHECK_RE = re.compile(r"^Check (\d+): (\S+)\n\t - Status: (\S+)\n\t - Description: \"(.*)\"\n\t - Location: (.*)$", re.M)
+CHECK_RE = re.compile(r"^Check (\d+): (.+)\n\t - Status: (\S+)\n\t - Description: \"(.*)\"\n\t - Location: (.*)$", re.M)
 
 
 def parse_log(out):
@@ -190,7 +190,7 @@ def run_harness(ob, logdir):
             sorted(set(f["description"] + " @ " + f["location"] for f in unwinding + unsupported))[:4])
     elif real_fail:
         r["class"] = "fail"; r["why"] = "; ".join(sorted(set(f["description"] for f in real_fail))[:6])
-    elif "Out of memory" in out or "std::bad_alloc" in out or "run out of memory" in out:
+    elif "Out of memory" in out or "std::bad_alloc" in out or "run out of memory" in out or "Status: ERROR" in out:
         r["class"] = "inconclusive"; r["why"] = "solver ran out of memory (limit %g GB)" % ob.mem
     elif r["verdict"] == "FAILED" and not expected_only:
         r["class"] = "inconclusive"; r["why"] = "FAILED without a failed check that could be parsed"
